@@ -115,3 +115,206 @@ Theorem C05_xml_tag_depends_on_type_only : forall o o' v v',
   | _, _ => False
   end.
 Proof. exact xml_tag_depends_on_type_only. Qed.
+
+(* ==== the structural clauses about EVERY document the writer model emits (Proofs/XmlStructure.v): the event list is the flattening of
+   exactly one element tree (tree_of_wevents_iff); one roblox element version 4 = one Item per root then at most one SharedStrings;
+   every Item at any depth has attributes class, referent, ONE Properties element first, then one Item per child in order;
+   referent attributes are decimal numerals, never null, pairwise distinct for duplicate-free written sets (hypothesis necessary:
+   duplicate_root_duplicate_referent); every Ref element holds null iff the Ref is null, else the numeral that is the referent
+   attribute of exactly the target's Item (forward or backward; a dangling Ref's number is carried by no Item); the dictionary has
+   one sorted entry per hash and every SharedString element's key is defined in it; Properties = Name first then the properties.
+   Finding: keys are the FIRST 16 BYTES of the hash, so key uniqueness needs prefix-injectivity of the hash
+   (truncated_hash_makes_dictionary_ambiguous). *)
+From RbxVerif Require Import XmlDeterminism XmlStructure.
+Open Scope N_scope.
+
+Theorem C05_tree_of_wevents_iff :
+  forall (evs : list wevent) (ts : list wnode), tree_of_wevents evs = Some ts <-> evs = flats ts.
+Proof. exact tree_of_wevents_iff. Qed.
+
+Theorem C05_flats_injective :
+  forall ts ts' : list wnode, flats ts = flats ts' -> ts = ts'.
+Proof. exact flats_injective. Qed.
+
+Theorem C05_xml_encode_document :
+  forall (e : xenv) (beh : ebehavior) (d : cdom) (roots : list N) (evs : list wevent),
+       xml_encode e beh d roots = Ok evs ->
+       exists (m : list (N * N)) (dict : list (bytes * bytes)) (items : list wnode),
+         tree_of_wevents evs = Some [doc_node items (dict_nodes dict)] /\
+         items_spec e beh d m dict roots items (written d roots) /\
+         (forall r1 r2 x : N, lookup r1 m = Some x -> lookup r2 m = Some x -> r1 = r2) /\
+         Sorted.StronglySorted klt dict /\ (forall h c : bytes, In (h, c) dict -> xe_hash e c = Some h).
+Proof. exact xml_encode_document. Qed.
+
+Theorem C05_xml_encode_skeleton :
+  forall (e : xenv) (beh : ebehavior) (d : cdom) (roots : list N) (evs : list wevent),
+       xml_encode e beh d roots = Ok evs ->
+       exists items dictn : list wnode,
+         tree_of_wevents evs = Some [WNode (B "roblox") [(B "version", B "4")] (items ++ dictn)] /\
+         Forall2 (is_item_of d) roots items /\
+         (dictn = [] \/
+          (exists entries : list wnode, entries <> [] /\ dictn = [WNode (B "SharedStrings") [] entries])).
+Proof. exact xml_encode_skeleton. Qed.
+
+Theorem C05_xml_encode_items :
+  forall (e : xenv) (beh : ebehavior) (d : cdom) (roots : list N) (evs : list wevent),
+       xml_encode e beh d roots = Ok evs ->
+       exists doc : wnode,
+         tree_of_wevents evs = Some [doc] /\ Forall2 (item_shape d) (written d roots) (items_of doc).
+Proof. exact xml_encode_items. Qed.
+
+Theorem C05_xml_encode_referents :
+  forall (e : xenv) (beh : ebehavior) (d : cdom) (roots : list N) (evs : list wevent),
+       xml_encode e beh d roots = Ok evs ->
+       exists (doc : wnode) (m : list (N * N)),
+         tree_of_wevents evs = Some [doc] /\
+         map_injective m /\
+         Forall2 (item_referent d m) (written d roots) (items_of doc) /\
+         (forall x : wnode,
+          In x (items_of doc) ->
+          exists v : N, attr_of (B "referent") x = Some (dec_of_N v) /\ dec_of_N v <> B "null") /\
+         (NoDup (written d roots) -> NoDup (List.map (attr_of (B "referent")) (items_of doc))).
+Proof. exact xml_encode_referents. Qed.
+
+Theorem C05_xml_encode_dictionary :
+  forall (e : xenv) (beh : ebehavior) (d : cdom) (roots : list N) (evs : list wevent),
+       xml_encode e beh d roots = Ok evs ->
+       exists (items : list wnode) (dict : list (bytes * bytes)),
+         tree_of_wevents evs = Some [WNode (B "roblox") [(B "version", B "4")] (items ++ dict_nodes dict)] /\
+         Sorted.StronglySorted klt dict /\
+         (forall h c : bytes, In (h, c) dict -> xe_hash e c = Some h) /\
+         Forall2
+           (fun (id : N) (x : wnode) =>
+            exists i : inst,
+              find_inst d id = Some i /\
+              (forall p : wnode,
+               In p (props_of x) ->
+               tag_of p = B "SharedString" ->
+               exists k c h c' : bytes,
+                 In (k, VSharedString c) (i_props i) /\
+                 xe_hash e c = Some h /\
+                 kids_of p = [leaf (md5_key h)] /\
+                 In (h, c') dict /\ attr_of (B "md5") (dict_entry (h, c')) = Some (md5_key h)))
+           (written d roots) (flat_map items_of items).
+Proof. exact xml_encode_dictionary. Qed.
+
+Theorem C05_xml_encode_dictionary_keys_unique :
+  forall (e : xenv) (beh : ebehavior) (d : cdom) (roots : list N) (evs : list wevent),
+       prefix_injective e ->
+       hash_is_bytes e ->
+       xml_encode e beh d roots = Ok evs ->
+       exists (items : list wnode) (dict : list (bytes * bytes)),
+         tree_of_wevents evs = Some [WNode (B "roblox") [(B "version", B "4")] (items ++ dict_nodes dict)] /\
+         NoDup (List.map (attr_of (B "md5")) (List.map dict_entry dict)).
+Proof. exact xml_encode_dictionary_keys_unique. Qed.
+
+Theorem C05_xml_encode_refs :
+  forall (e : xenv) (beh : ebehavior) (d : cdom) (roots : list N) (evs : list wevent),
+       xml_encode e beh d roots = Ok evs ->
+       exists (doc : wnode) (m : list (N * N)),
+         tree_of_wevents evs = Some [doc] /\
+         map_injective m /\
+         Forall2 (item_referent d m) (written d roots) (items_of doc) /\
+         Forall2
+           (fun (id : N) (x : wnode) =>
+            exists i : inst,
+              find_inst d id = Some i /\
+              (forall p : wnode,
+               In p (props_of x) ->
+               tag_of p = B "Ref" ->
+               exists (k : bytes) (r : N),
+                 In (k, VRef r) (i_props i) /\
+                 kids_of p = [WText (ref_text m r)] /\
+                 (ref_text m r = B "null" <-> r = 0) /\
+                 (r <> 0 ->
+                  (exists v : N, lookup r m = Some v /\ ref_text m r = dec_of_N v) /\
+                  (forall (id' : N) (x' : wnode),
+                   In x' (items_of doc) ->
+                   item_referent d m id' x' -> attr_of (B "referent") x' = Some (ref_text m r) <-> id' = r))))
+           (written d roots) (items_of doc).
+Proof. exact xml_encode_refs. Qed.
+
+Theorem C05_xml_encode_properties :
+  forall (e : xenv) (beh : ebehavior) (d : cdom) (roots : list N) (evs : list wevent),
+       xml_encode e beh d roots = Ok evs ->
+       exists doc : wnode,
+         tree_of_wevents evs = Some [doc] /\
+         Forall2
+           (fun (id : N) (x : wnode) =>
+            exists (i : inst) (ons : list (option wnode)),
+              find_inst d id = Some i /\
+              props_of x =
+              WNode (B "string") [(B "name", B "Name")] [leaf (i_name i)] :: flat_map opt_nodes ons /\
+              Forall2
+                (fun (kv : bytes * value) (on : option wnode) =>
+                 forall p : wnode, on = Some p -> prop_elem e beh (i_class i) kv p) 
+                (bsort (i_props i)) ons) (written d roots) (items_of doc).
+Proof. exact xml_encode_properties. Qed.
+
+Theorem C05_xml_encode_properties_sorted_noreflection :
+  forall (e : xenv) (d : cdom) (roots : list N) (evs : list wevent),
+       xml_encode e ENoReflection d roots = Ok evs ->
+       exists doc : wnode,
+         tree_of_wevents evs = Some [doc] /\
+         Forall2
+           (fun (id : N) (x : wnode) =>
+            exists i : inst,
+              find_inst d id = Some i /\
+              subseq (List.map pname_of (tl (props_of x))) (List.map fst (bsort (i_props i))) /\
+              (NoDup (List.map fst (i_props i)) ->
+               Sorted.StronglySorted blt (List.map pname_of (tl (props_of x))))) 
+           (written d roots) (items_of doc).
+Proof. exact xml_encode_properties_sorted_noreflection. Qed.
+
+Theorem C05_duplicate_root_duplicate_referent :
+  xml_encode XmlFileFacts.e0 EWriteUnknown
+         [{| i_ref := 1; i_parent := 0; i_class := B "Folder"; i_name := B "f"; i_props := [] |}] [
+         1; 1] =
+       Ok
+         [WStart (B "roblox") [(B "version", B "4")];
+          WStart (B "Item") [(B "class", B "Folder"); (B "referent", B "0")]; WStart (B "Properties") [];
+          WStart (B "string") [(B "name", B "Name")]; WChars (B "f"); WEnd; WEnd; WEnd;
+          WStart (B "Item") [(B "class", B "Folder"); (B "referent", B "0")]; WStart (B "Properties") [];
+          WStart (B "string") [(B "name", B "Name")]; WChars (B "f"); WEnd; WEnd; WEnd; WEnd].
+Proof. exact duplicate_root_duplicate_referent. Qed.
+
+Theorem C05_truncated_hash_makes_dictionary_ambiguous :
+  h_a <> h_b /\
+       firstn 16 h_a = firstn 16 h_b /\
+       (exists (items : list wnode) (e1 e2 : wnode),
+          ' evs <- xml_encode e_amb EWriteUnknown d_amb [1];; Ok (tree_of_wevents evs) =
+          Ok
+            (Some
+               [WNode (B "roblox") [(B "version", B "4")] (items ++ [WNode (B "SharedStrings") [] [e1; e2]])]) /\
+          attr_of (B "md5") e1 = attr_of (B "md5") e2 /\
+          kids_of e1 = [WText (B "YWFh")] /\
+          kids_of e2 = [WText (B "YmJi")] /\
+          ' evs <- xml_encode e_amb EWriteUnknown d_amb [1];;
+          ' revs <- channel evs;; xml_decode e_amb DReadUnknown revs =
+          Ok
+            [{|
+               i_ref := 1;
+               i_parent := 0;
+               i_class := B "Folder";
+               i_name := B "f";
+               i_props := [(B "S2", VSharedString (B "bbb")); (B "S1", VSharedString (B "bbb"))]
+             |}]).
+Proof. exact truncated_hash_makes_dictionary_ambiguous. Qed.
+
+Theorem C05_names_not_sorted_with_reflection :
+  exists doc x : wnode,
+         ' evs <-
+         xml_encode e_size EIgnoreUnknown
+           [{|
+              i_ref := 1;
+              i_parent := 0;
+              i_class := B "Part";
+              i_name := B "p";
+              i_props :=
+                [(B "Transparency", VFloat32 0); (B "Size", VVector3 {| vx := 0; vy := 0; vz := 0 |})]
+            |}] [1];; Ok (tree_of_wevents evs) = Ok (Some [doc]) /\
+         items_of doc = [x] /\
+         List.map pname_of (props_of x) = [B "Name"; B "size"; B "Transparency"] /\
+         bytes_ltb (B "size") (B "Transparency") = false.
+Proof. exact names_not_sorted_with_reflection. Qed.
+
